@@ -1107,6 +1107,20 @@ func runSignedBy(s *summary, k *h.Keys, root *h.Rng, n int, thorough bool, addCa
 				desc += fmt.Sprintf(" dsse signature on group %d whose descriptor carries entity 2's fingerprint;", g)
 			}
 		}
+		// a signature descriptor whose hash type is not one the format knows
+		if i%7 == 1 {
+			if sds := h.SigDescs(img); len(sds) > 0 {
+				sd := h.Pick(r, sds)
+				si, _ := h.DecodeImage(img)
+				for j, d := range si.Descs {
+					if d.Used && d.ID == sd.ID && d.Off == sd.Off {
+						o := int(si.H.DescOff) + j*h.DescSize + 201
+						img[o], img[o+1], img[o+2], img[o+3] = byte(h.Pick(r, []int{0, 7, 200})), 0, 0, 0
+						desc += fmt.Sprintf(" hash type of signature %d made unknown;", sd.ID)
+					}
+				}
+			}
+		}
 		// a PGP signature whose (unprotected) descriptor names another entity
 		if i%7 == 5 {
 			sds := h.SigDescs(img)
